@@ -29,6 +29,9 @@ type PoolInfo struct {
 	Ratio  string
 	Offset string
 	Fee    string
+	// Centre is the tick around which the pool's first position (and so its price) is placed:
+	// 0 for a price near 1, far from 0 for a price many orders of magnitude away from 1
+	Centre int64
 }
 
 type World struct {
@@ -180,6 +183,11 @@ func (w *World) Dump(ctx sdk.Context, p PoolInfo, user sdk.AccAddress) string {
 
 // CreatePool creates a pool through the real message server.
 func (w *World) CreatePool(base, quote, fee, ratio, offset string) (PoolInfo, error) {
+	return w.CreatePoolAt(base, quote, fee, ratio, offset, 0)
+}
+
+// CreatePoolAt creates a pool whose generated first position is centred on tick centre.
+func (w *World) CreatePoolAt(base, quote, fee, ratio, offset string, centre int64) (PoolInfo, error) {
 	ctx := w.H.Ctx()
 	var id uint64
 	err := apph.Tx(ctx, func(ctx sdk.Context) error {
@@ -198,7 +206,7 @@ func (w *World) CreatePool(base, quote, fee, ratio, offset string) (PoolInfo, er
 			den = append(den, d)
 		}
 	}
-	p := PoolInfo{ID: id, Denoms: den[:4], Ratio: ratio, Offset: offset, Fee: fee}
+	p := PoolInfo{ID: id, Denoms: den[:4], Ratio: ratio, Offset: offset, Fee: fee, Centre: centre}
 	w.Pools = append(w.Pools, p)
 	return p, nil
 }
